@@ -181,6 +181,7 @@ type RScen struct {
 	Prior   []Prior       `json:"prior,omitempty"`
 	Dict    *DataSpec     `json:"dict,omitempty"`
 	NoMulti bool          `json:"no_multi,omitempty"` // gzip: Multistream(false) and Reset per member
+	Members int           `json:"members,omitempty"`  // NoMulti: stop after this many members (0 = until Reset fails)
 	MaxOut  int           `json:"max_out,omitempty"`
 	Extra   int           `json:"extra,omitempty"` // further Reads after the first error (default 3)
 }
@@ -534,7 +535,7 @@ func RunR(t *kern.Task, log *kern.Log, sc *RScen, fast bool) (rec *RRec) {
 			rec.Members = append(rec.Members, m)
 			rec.Out = append(rec.Out, m.Out...)
 			log.Ev(tid, kern.EvOp, len(m.Out), len(m.Kind), "member "+m.Kind)
-			if m.Err != io.EOF || rec.TooBig || rec.Livelock || len(rec.Members) > 64 {
+			if m.Err != io.EOF || rec.TooBig || rec.Livelock || len(rec.Members) > 64 || (sc.Members > 0 && len(rec.Members) >= sc.Members) {
 				rec.Err, rec.Kind = m.Err, m.Kind
 				break
 			}
